@@ -124,7 +124,36 @@ def respec_programs(draw):
 
 
 @st.composite
+def spy_collision_programs(draw):
+    """usim.py: one process triggers several events back to back in one time step (failures among them); others wait for
+    conditions over these events, natively or as processes - which outcome they see is a function of the program"""
+    nev = draw(st.integers(2, 4))
+    trig = []
+    for k in draw(st.permutations(list(range(nev)))):
+        if draw(st.integers(0, 2)):
+            trig.append({'op': 'fail', 'ev': k, 'x': 10 + k})
+        else:
+            trig.append({'op': 'succeed', 'ev': k, 'v': k})
+    procs = [{'name': 'p0', 'phase': 1, 'steps': [{'op': 'timeout', 'd': draw(st.integers(0, 2))}] + trig}]
+    for i in range(draw(st.integers(1, 3))):
+        evs = draw(st.lists(st.integers(0, nev - 1), min_size=2, max_size=nev, unique=True))
+        c = {'op': 'cond', 'kind': draw(st.sampled_from(['any', 'all', 'all'])), 'evs': evs,
+             'via': draw(st.sampled_from(['call', 'cls', 'op' if len(evs) == 2 else 'call']))}
+        procs.append({'name': 'p%d' % (i + 1), 'phase': draw(st.sampled_from([1, 2, 3])), 'steps': [c, {'op': 'timeout', 'd': 1}]})
+    return {'nev': nev, 'nflags': 0, 'procs': procs, 't0': 0, 'callbacks': list(range(nev)), 'defusers': list(range(nev)),
+            'watch': draw(st.lists(st.integers(0, nev - 1), max_size=2, unique=True))}
+
+
+@st.composite
 def cases(draw, tier):
+    if draw(st.integers(0, 7)) == 0:
+        # usim.py programs (those of C18, order-dependent ones included, and directed same-step collisions)
+        if draw(st.booleans()):
+            return {'prog': {'spy': draw(spy_collision_programs())}, 'junk': draw(st.integers(0, 10000))}
+        from checks import c18
+        sp = draw(c18.programs('quick'))
+        if 'until_exact' not in sp:
+            return {'prog': {'spy': sp}, 'junk': draw(st.integers(0, 10000))}
     if draw(st.integers(0, 19)) == 0:
         return {'prog': draw(respec_programs()), 'junk': draw(st.integers(0, 10000))}
     if draw(st.integers(0, 9)) == 0:
@@ -292,10 +321,38 @@ class C02(Check):
     def strategy(self, tier):
         return cases(tier)
 
+    def spy_case(self, out, case):
+        """a usim.py program (processes, events, conditions, callbacks; same-step collisions welcome): one trace in every
+        configuration"""
+        from vlib.spy import canon_spy
+        prog = case['prog']
+        ref = canon_spy(prog['spy'])
+        if 'usage_assertion' in ref:
+            raise InvalidCase('usage assertion')
+        refd = hashlib.sha1(ref.encode()).hexdigest()
+        answers = ask_all({'prog': prog, 'junk': case.get('junk', 0), 'twice': True})
+        out.evals = 2 * (1 + 2 * len(CONFIGS))
+        bad = []
+        for cfg, a in zip(CONFIGS, answers):
+            if 'error' in a:
+                raise HarnessError('worker %r: %s' % (cfg, a['error']))
+            if not a['same_twice']:
+                out.fail('differential', 'spy:same_process_heap_perturbation',
+                         'two runs of a usim.py program in one worker (%r) with different unrelated allocations gave different traces' % (cfg,))
+            if a['digest'] != refd:
+                bad.append(cfg)
+        if bad:
+            out.fail('differential', 'spy:trace_differs', 'usim.py program: configs %r differ from the in-process run' % (bad[:4],))
+        out.features.add('fam_usimpy')
+        out.nontrivial = len(prog['spy']['procs']) >= 2
+        return out
+
     def run_case(self, case, tier='quick'):
         out = Outcome()
         prog = case['prog']
         probe = Probe(b_step=5000, b_total=80000, record=True, record_sched=True)
+        if 'spy' in prog:
+            return self.spy_case(out, case)
         it, oc, exc, p = execute(prog, probe)
         ref = canon_log(it, oc, exc)
         if '"AssertionError"' in ref and '"other"' in ref:
@@ -366,6 +423,43 @@ class C02(Check):
                 except ValueError:
                     out.fail('fifo', 'activation_out_of_schedule_order', 'at time %r an activation ran before one that was '
                              'scheduled earlier' % (t,))
+                    break
+        # ---- ... and a wake-up that was revoked before it was delivered stays dead: what runs next in a time step is the
+        #      oldest entry of that date that is still valid (one merged stream of schedule calls, revocations, activations)
+        if not p.absorbed:
+            pending = {}        # date -> [[target, signal, state]]   state: 0 live, 1 done, 2 revoked before delivery
+            by_sig = {}
+            for ev in p.merged:
+                if ev[0] == 's':
+                    ent = [ev[2], ev[3], 0]
+                    pending.setdefault(ev[1], []).append(ent)
+                    if ev[3]:
+                        by_sig.setdefault(ev[3], []).append(ent)
+                elif ev[0] == 'r':
+                    for ent in by_sig.pop(ev[1], ()):
+                        if ent[2] == 0:
+                            ent[2] = 2
+                else:
+                    _, t, tid, sid = ev
+                    ents = pending.get(t, ())
+                    nxt = next((e for e in ents if e[2] == 0), None)
+                    if nxt is not None and nxt[0] == tid and nxt[1] == sid:
+                        nxt[2] = 1
+                        continue
+                    mine = [e for e in ents if e[0] == tid and e[1] == sid]
+                    if not mine:
+                        continue        # a root pushed by the loop constructor
+                    if all(e[2] == 2 for e in mine):
+                        out.fail('fifo', 'revoked_wakeup_delivered', 'at time %r an activity was resumed by a wake-up that had been '
+                                 'revoked before (and not scheduled again since)' % (t,))
+                    elif any(e[2] == 2 for e in mine) and nxt is not None:
+                        out.fail('fifo', 'resumed_at_the_place_of_a_revoked_wakeup', 'at time %r an activity was resumed ahead of %d '
+                                 'entries scheduled before its valid wake-up (at the queue position of a wake-up of its own that had '
+                                 'been revoked)' % (t, sum(1 for e in ents[:ents.index(next(e for e in mine if e[2] == 0))] if e[2] == 0)
+                                                    if any(e[2] == 0 for e in mine) else -1))
+                    else:
+                        out.fail('fifo', 'activation_not_the_oldest_valid_entry', 'at time %r an activation ran that was not the oldest '
+                                 'valid entry of that date' % (t,))
                     break
         fam = families(prog)
         out.features |= {'fam_' + f for f in fam}
